@@ -58,6 +58,12 @@ CHECKS = {
           "trees replayed on Clean() of every type offering it; CleanTrace.tla requires post = CleanV(pre), no leak, none in the JSON form",
           "All generated trees (13 root types x positions x subtree shapes, lists, depth-4 chain) and random trees of depth <=3/4.",
           TRUST, "DESIGN.md §4 C11"),
+ "C12": C("TLA+ ReadOnly.tla: heap of cells x N goroutines x read-only operations as sequences of atomic steps, every interleaving explored "
+          "by TLC (HeapFrozen, SameAsSequential); a write-then-restore variant is shown to violate the interleaving check but not the snapshot "
+          "view; on the real code: deep-snapshot frame check incl. slice capacity for every (value, operation), and all operation pairs on shared "
+          "values from concurrent goroutines under the Go race detector; ReadOnlyTrace.tla judges",
+          "Exhaustive interleavings in the model only; on the real code every operation pair is covered and the race detector is the observer.",
+          TRUST + " The race detector's shadow memory could in principle evict an access.", "DESIGN.md §4 C12"),
  "C13": C("TLA+ state machine (Collections.tla) model-checked by TLC; every model transition replayed on the six real containers and "
           "random histories recorded from them, all judged by the trace specification CollectionsTrace.tla",
           "Exhaustive TLC check of the ordered-set design for a pool of 4-5 ids; every (kind, contents, op) transition of the model is "
